@@ -71,6 +71,11 @@ func rootsFor(prop, tier string) []Root {
 			add("VH_C12_Time2", dec)
 		}
 	case "C13":
+		add("VH_C13_Marks", 2)
+		add("VH_C13_Marks", 3)
+		if thorough {
+			add("VH_C13_Marks", 4)
+		}
 		for _, t := range []int{15, 253, 254, 249, 250, 251, 252, 255} {
 			add("VH_C13_Str", t, 40)
 			add("VH_C13_Str", t, 300)
@@ -114,6 +119,21 @@ func rootsFor(prop, tier string) []Root {
 		rs = append(rs, Root{Prop: prop, Harness: "VH_C03_Labels", Params: []int{2}, MaxDecs: 2000})
 		if thorough {
 			rs = append(rs, Root{Prop: prop, Harness: "VH_C03_Labels", Params: []int{3}, MaxDecs: 2000})
+		}
+	case "C08":
+		for _, p := range [][2]int{{20, 20}, {32, 8}, {8, 32}} {
+			add("VH_C08_Transport", p[0], p[1])
+		}
+		if thorough {
+			add("VH_C08_Transport", 4100, 60)
+			add("VH_C08_Transport", 60, 4100)
+		}
+		for sh := 0; sh < 13; sh++ {
+			add("VH_C08_Scribble", sh, 0)
+			add("VH_C08_Scribble", sh, 1)
+		}
+		for st := 0; st < 6; st++ {
+			rs = append(rs, Root{Prop: prop, Harness: "VH_C08_Row", Params: []int{st}, MaxDecs: 3000})
 		}
 	case "C09":
 		for _, t := range []int{1, 2, 3, 4, 5, 7, 8, 9, 10, 11, 12, 13, 14, 15, 16, 17, 18, 19, 245, 247, 248, 249, 250, 251, 252, 253, 254, 255} {
